@@ -610,6 +610,13 @@ def d2_selection(ctx, idx, info):
             raise AnalysisError('results list not identified (see D1)')
         res_name = info.results
         env = fl.flat_env(fi.node)
+        # `results = results_inl2`: follow plain aliases of the collected list forward to the name the selection reads
+        for _ in range(4):
+            nxt = [k for k, v in env.items() if isinstance(v, ast.Name) and v.id == res_name]
+            if len(nxt) != 1:
+                break
+            res_name = nxt[0]
+        info.results_alias = res_name
         rets = lib.returns_of(fi.node)
         if not rets or not all(isinstance(x.value, ast.Name) for x in rets) or len({x.value.id for x in rets}) != 1:
             raise AnalysisError('ItemGrader.check: the returns do not all hand back one name')
@@ -1084,5 +1091,8 @@ BENIGN = [
            "        best_result_with_longest_msg = results[0]\n        for result in results[1:]:\n            best = best_result_with_longest_msg\n            if result['grade_decimal'] > best['grade_decimal'] or (result['grade_decimal'] == best['grade_decimal'] and len(result['msg']) > len(best['msg'])):\n                best_result_with_longest_msg = result\n        best_score = best_result_with_longest_msg['grade_decimal']\n"),
     Benign('wrong-msg-ok-and-grade', BASE, "        if best_result_with_longest_msg['msg'] == \"\" and best_score == 0:",
            "        if best_result_with_longest_msg['msg'] == \"\" and best_result_with_longest_msg['ok'] is False and best_score == 0:"),
+    Benign('results-alias', BASE, [("        results = []\n        for answer in answers:", "        collected = []\n        for answer in answers:"),
+                                     ("                results.append(result)\n", "                collected.append(result)\n"),
+                                     ("        # Now find the best result for the student\n", "        results = collected\n")], None),
     Benign('log-in-loop', BASE, _LOOP, _LOOP + "                self.log('checked one alternative')\n"),
 ]
